@@ -29,7 +29,8 @@ def run(prop, tier, seed, replay=None):
         "(the multiplier is a primitive root modulo the prime 2^31-1, Lemmas/RandomOrbit.lean); the correspondence runs every loop under a watchdog",
         "ModularExtended<double>, Modular<Integer>, Modular<rint<K>> and the Extension::RandIter class (floating-point scaling of the draw) are checked "
         "implementation-vs-specification only (their init is the subject of C04); Modular<float|double>, ModularBalanced<int32|int64|float|double>, "
-        "Montgomery<int32_t>, ZRing<intN|uintN|double>, GF2 and Extension<Modular<int32_t>>::random/nonzerorandom are modelled exactly "
+        "Montgomery<int32_t>, ZRing<intN|uintN|double>, GF2, Extension<Modular<int32_t>>::random/nonzerorandom, QField<Rational>::random/nonzerorandom (argument evaluation order of "
+        "Rational(Integer::random(s), Integer::nonzerorandom(s)) as compiled by g++: right to left) and Poly1Dom::random over GFqDom<int32_t>, Modular<double>, ModularBalanced<int32_t>, Montgomery<int32_t> are modelled exactly "
         "(Model/RandomRings.lean: the conversion of a residue below maxCardinality() to float/double is taken to be exact; theorems Props/C20Rings.lean); "
         "a zero seed (clock-seeded generator) is outside the property",
         "that the CODE has no other input than the seed, the construction parameters and the calls is checked by drawing every sequence twice "
@@ -61,7 +62,8 @@ def run(prop, tier, seed, replay=None):
                             "{1,2,..,2^k-1,2^k,2^k+1 for k in 31..3000, limb-structured multi-limb} and bit sizes {1,2,31..33,63..65,127..129,..,1000,random} "
                             "x raw-draw patterns (every sequence over {real, minimum, maximum} of length <= 2 in quick, <= 3 plus selected longer ones in thorough), every destination pre-filled from {0,±1,2^64,-(2^130+12345),2^300+2^64+3,-2^63,2^1000-1}; "
                             "every ring type x modulus grid (min/maxCardinality() as reported by the running code and the values next to them) x 8 draw functions x sizes "
-                            "{0,1,2,3,p/2,p-1,p,p+1,max}; polynomial degrees 0..100 (1000 thorough); GF2 x 7 draw functions; ZRing<int8..uint64,double> x {RandIter, GeneralRingRandIter sizes 0,1,2,3,100,127,255,..,2^31-1,2^40,2^63-1, nonzero iterator, random, nonzerorandom}; "
+                            "{0,1,2,3,p/2,p-1,p,p+1,max}; polynomial degrees 0..100 (1000 thorough) over Modular<int32_t>, GFqDom<int32_t>, Modular<double>, ModularBalanced<int32_t>, Montgomery<int32_t>; QField<Rational> 4 forms x sizes {1,2,3,8,31..33,63..65,128,200} / bounds incl. multi-limb x 14 raw-draw substitution patterns; "
+                            "three-argument RandIter constructors and copy assignment between iterators of different sampling sizes (fn 8, 9); GF2 x 7 draw functions; ZRing<int8..uint64,double> x {RandIter, GeneralRingRandIter sizes 0,1,2,3,100,127,255,..,2^31-1,2^40,2^63-1, nonzero iterator, random, nonzerorandom}; "
                             "Extension<Modular<int32_t>>(p in {2,3,5,101,32749,46337}, e in {1,2,3,5,8} (13, 24 thorough)) x 6 random forms x sizes {0,1,2,e-1,e,e+1,1000,-1,-7,2^63-1} / every b.size() <= e + RandIter sizes {0,1,2,p-1,p,p+1,1000003}; RecInt K = 6..10. distinct = distinct input lines; "
                             "non-trivial = not all arguments in {0,1}",
                        extra={"cases_by_kind": kinds})
